@@ -180,6 +180,14 @@ func c10Doc(t *rapid.T) ([]byte, string) {
 }
 
 func c10Query(t *rapid.T, cmds []database.Command) string {
+	for i := range cmds {
+		// an entry made of letters whose lower-case form has another byte length: ask for it, in either spelling
+		for _, cl := range gen.CaseLength {
+			if cmds[i].Command == cl && rapid.Bool().Draw(t, "ask-case-length") {
+				return rapid.SampledFrom([]string{cl, strings.ToLower(cl), "kkk", strings.ToLower(cl) + " x"}).Draw(t, "case-length-query")
+			}
+		}
+	}
 	switch rapid.IntRange(0, 9).Draw(t, "qkind") {
 	case 9: // the context-clue words of the language heuristics, in complete and cut-off phrases
 		return gen.ClueSentence(t)
